@@ -219,9 +219,16 @@ class SymNP(types.ModuleType):
 
     # ---- allocation -------------------------------------------------------------------------------
     @staticmethod
-    def _dt(dtype):
-        if Mode.symbolic and _is_numeric_dtype(dtype) and _np.dtype(dtype).kind in "iuf":
-            return object
+    def _dt(dtype, src=None):
+        """float allocations become object arrays in symbolic mode; integer allocations only when they are
+        modelled on an object array (e.g. empty_like(symbolic coordinates, dtype=int)) — plain integer index
+        arrays (np.zeros(n, dtype=int)) stay native so that they remain valid indices."""
+        if Mode.symbolic and _is_numeric_dtype(dtype):
+            k = _np.dtype(dtype).kind
+            if k == "f":
+                return object
+            if k in "iu" and isinstance(src, _np.ndarray) and src.dtype == object:
+                return object
         return dtype
 
     def zeros(self, shape, dtype=float, **k):
@@ -260,7 +267,7 @@ class SymNP(types.ModuleType):
             raise Unsupported("*_like of ShapeOnly")
         src_obj = isinstance(x, _np.ndarray) and x.dtype == object
         want = dtype if dtype is not None else (x.dtype if isinstance(x, _np.ndarray) else None)
-        if (dtype is not None and self._dt(dtype) is object) or (dtype is None and src_obj and Mode.symbolic):
+        if (dtype is not None and self._dt(dtype, x) is object) or (dtype is None and src_obj and Mode.symbolic):
             r = _np.empty(_np.shape(x), dtype=object)
             if fill is not None:
                 r[...] = fill
